@@ -18,9 +18,11 @@ pub static CODEC_ONLY: AtomicBool = AtomicBool::new(false);
 /// endianness and pointer width; metadata, EncodeLike and serde stay off.
 pub static LEAN: AtomicU8 = AtomicU8::new(0);
 /// Alarm-path self-test: the reference model is deliberately wrong (big-endian payload), so that the
-/// unchanged tree "violates" E1 and the whole detect / minimise / persist / replay path can be exercised
-/// without touching /repo. Only ever set in a child process whose output is captured.
-pub static CANARY: AtomicBool = AtomicBool::new(false);
+/// unchanged tree "violates" E1 (level 1: the write phase) or D1 (level 2: the model expects every bare
+/// record's value with its lowest bit flipped, so the read phase fails) and the whole detect / minimise /
+/// persist / replay path can be exercised without touching /repo. Only ever set in a child process whose
+/// output is captured.
+pub static CANARY: AtomicU8 = AtomicU8::new(0);
 
 #[derive(Clone, Debug)]
 pub struct Violation {
@@ -32,7 +34,7 @@ pub struct Violation {
     pub detail: String,
 }
 
-pub const CHECK_IDS: [&str; 21] = ["E0", "E1", "E2", "E3", "A1", "D1", "D2", "D3", "D4", "D5", "D6", "B1", "M1", "S1", "S2", "S3", "S4", "U1", "D7", "S5", "L1"];
+pub const CHECK_IDS: [&str; 22] = ["E0", "E1", "E2", "E3", "A1", "D1", "D2", "D3", "D4", "D5", "D6", "B1", "M1", "S1", "S2", "S3", "S4", "U1", "D7", "S5", "L1", "D8"];
 
 fn check_no(id: &str) -> u64 {
     CHECK_IDS.iter().position(|c| *c == id).unwrap_or(99) as u64
@@ -47,6 +49,9 @@ fn le_bytes(bits: u128, wb: usize) -> impl Iterator<Item = u8> {
 
 /// Values a reader of this record is expected to report (Tup3 carries its foreign fields).
 pub fn expected_values(r: &Record) -> Vec<u128> {
+    if CANARY.load(Ordering::Relaxed) == 2 && r.shape == Shape::Bare {
+        return vec![r.vals[0] ^ 1];
+    }
     match r.shape {
         Shape::Tup3 => vec![r.vals[0], tup_head(r.vals[0]) as u128, tup_tail(r.vals[0]) as u128],
         Shape::Rec => {
@@ -64,7 +69,7 @@ pub fn expected_values(r: &Record) -> Vec<u128> {
 pub fn model_bytes(r: &Record, wb: usize) -> (Vec<u8>, Vec<(usize, usize, usize)>) {
     let mut b = Vec::new();
     let mut spans = Vec::new();
-    let canary = CANARY.load(Ordering::Relaxed);
+    let canary = CANARY.load(Ordering::Relaxed) == 1;
     let mut payload = |b: &mut Vec<u8>, vals: &[u128]| {
         for (j, v) in vals.iter().enumerate() {
             spans.push((b.len(), wb, j));
@@ -270,12 +275,15 @@ pub fn write_phase(table: &[Ops], t: &Trace, record: bool) -> Result<Written, Vi
                 Err(p) => return Err(viol("E0", i, &f0, format!("encoded_size/encode unwound: {}", panic_msg(p)))),
             }
         }
-        let mel = (ops.mel)(Shape::Bare);
+        let mels = catch_unwind(|| ((ops.mel)(Shape::Bare), (ops.mel)(r.shape), (ops.mel_twin)(r.shape)));
+        let (mel, m1, m2) = match mels {
+            Ok(x) => x,
+            Err(p) => return Err(viol("E2", i, &f0, format!("{}: max_encoded_len() unwound: {}", ops.name, panic_msg(p)))),
+        };
         if mel != Some(wb) {
             log.ev(ev::CHECK_FAIL, check_no("E2"), i as u64);
             return Err(viol("E2", i, &f0, format!("{}: max_encoded_len() = {:?}, width/8 = {}", ops.name, mel, wb)));
         }
-        let (m1, m2) = ((ops.mel)(r.shape), (ops.mel_twin)(r.shape));
         if m1 != m2 {
             log.ev(ev::CHECK_FAIL, check_no("E2"), i as u64);
             return Err(viol("E2", i, &f0, format!("{} {:?}: max_encoded_len() = {:?}, integer twin's = {:?}", ops.name, r.shape, m1, m2)));
@@ -706,6 +714,7 @@ pub fn read_pass(table: &[Ops], t: &Trace, w: &Written, fault: &Fault, record: b
         }
         let pos_before = inp.pos;
         let depth_before = inp.depth;
+        let alloc_before = inp.alloc_bytes;
         inp.rl_err_returned = false;
         let out = run_reader(rops.dec, r.shape, reader, &mut inp);
         stats.records_read += 1;
@@ -744,12 +753,29 @@ pub fn read_pass(table: &[Ops], t: &Trace, w: &Written, fault: &Fault, record: b
                     // depth-limited decoding (DecodeLimit, 256 for extrinsics) reject long, flat, valid data
                     violation = Some(viol("D7", i, fault, format!("{}: decode succeeded but left the input's nesting depth at {} (was {}): descend_ref without matching ascend_ref", desc(), inp.depth, depth_before)));
                 }
+                if violation.is_none() && matches!(fault, Fault::None) && matches!(out, Outcome::Ok(_)) && reader.container_ok() && !matches!(reader, Reader::Metadata | Reader::IntegerTwin | Reader::DecodeAll | Reader::DecodeAllLimit) {
+                    // D8: the heap budget requested through `on_before_alloc_mem` equals what the same shape of
+                    // the underlying integer requests on the same bytes (nothing for a bare value: the type owns
+                    // no heap). Charging more makes memory-limited decoding (`decode_with_mem_limit`) reject
+                    // valid data that the integers pass.
+                    let asked = inp.alloc_bytes - alloc_before;
+                    let mut tw = SimInput::new(&data, s, err_from, InputMode::plain(), false);
+                    let tr = if matches!(reader, Reader::Skip) { Reader::Skip } else { Reader::Decode };
+                    if let Outcome::Ok(_) = run_reader(rops.dec_twin, r.shape, tr, &mut tw) {
+                        if tw.alloc_bytes != asked {
+                            violation = Some(viol("D8", i, fault, format!("{}: decoding asked the input for {} bytes of heap (on_before_alloc_mem), the integer twin of the same shape for {}", desc(), asked, tw.alloc_bytes)));
+                        }
+                    }
+                }
                 if violation.is_some() {
                     break;
                 }
                 inp.log.ev(ev::CHECK_OK, check_no(id), i as u64);
                 inp.log.ev(ev::CHECK_OK, check_no("D2"), i as u64);
                 inp.log.ev(ev::CHECK_OK, check_no("D7"), i as u64);
+                if matches!(fault, Fault::None) {
+                    inp.log.ev(ev::CHECK_OK, check_no("D8"), i as u64);
+                }
                 if t.input != InputMode::plain() {
                     inp.log.ev(ev::CHECK_OK, check_no("D5"), i as u64);
                 }
@@ -784,6 +810,10 @@ pub fn read_pass(table: &[Ops], t: &Trace, w: &Written, fault: &Fault, record: b
                 break; // nothing is asserted after a failed decode
             }
             Want::Twin => {
+                if let Outcome::Panic(m) = &out {
+                    violation = Some(viol("D4", i, fault, format!("{}: decoding corrupted framing unwound: {}", desc(), m)));
+                    break;
+                }
                 // framing byte corrupted: judged only against the underlying integer on the same bytes
                 let mut mode = t.input.clone();
                 if mode.rl == RlMode::Err {
